@@ -434,13 +434,15 @@ def alias_checks(ctx, S):
                 r1 = f.lib_decode(b1, v1)
                 was = repr(r1)
                 r2 = g.lib_decode(g.encode(v2), v2)
+                mid = repr(r1)
                 scribble_all(r2)
+                mid2 = repr(r1)
                 again = repr(f.lib_decode(b1, v1))
             except Exception:  # noqa: BLE001
                 ctx.count("held_result_decode_raised")
                 continue
             ctx.count("held_results_rechecked")
-            if repr(r1) != was:
+            if mid != was or mid2 != was or repr(r1) != was:
                 ctx.fail("C09:decode.earlier_result_changed.%s" % f.name, "the result of decoding a %s response changed when a %s response was decoded (and edited) afterwards" % (f.name, g.name),
                          {"format": f.name, "then": g.name, "response": bytes(b1)})
             elif again != was:
